@@ -200,7 +200,8 @@ def structural(path, rng):
 
 HDR_SETS = [[], [], [], [(b"accept-encoding", b"gzip")], [(b"accept-encoding", b"br, gzip;q=0.5")], [(b"accept-encoding", b"zstd")],
             [(b"accept-encoding", b"identity")], [(b"range", b"bytes=0-9")], [(b"range", b"bytes=3-")], [(b"range", b"bytes=9-2")],
-            [(b"range", b"bytes=0-0"), (b"accept-encoding", b"gzip")], [(b"x-v", b"A")], [(b"x-v", b"b")], [(b"x-v", b"B"), (b"accept-encoding", b"br")]]
+            [(b"range", b"bytes=0-0"), (b"accept-encoding", b"gzip")], [(b"x-v", b"A")], [(b"x-v", b"b")], [(b"x-v", b"B"), (b"accept-encoding", b"br")],
+            [(b"if-modified-since", b"@T+100")], [(b"if-modified-since", b"@T-100")], [(b"if-modified-since", b"yesterday"), (b"x-v", b"a")]]
 
 
 def history(rng, spellings, extra_addrs=3, methods=True):
@@ -217,6 +218,13 @@ def history(rng, spellings, extra_addrs=3, methods=True):
             ops.append(pipe.req(sp + q2, method=rng.choice([b"GET", b"GET", b"GET", b"HEAD"]), addr=a, headers=rng.choice([h, h, rng.choice(HDR_SETS)])))
         if rng.random() < 0.3:
             ops.append(pipe.req(sp + q, addr=1, headers=rng.choice(HDR_SETS)))
+        r = rng.random()
+        if r < 0.08:
+            ops.append(pipe.clear_page(sp + rng.choice([b"", q])))
+            ops.append(pipe.req(sp + q, addr=rng.choice(ADDRS[2:]), headers=h))
+        elif r < 0.11:
+            ops.append(pipe.clear_all())
+            ops.append(pipe.req(sp + q, addr=rng.choice(ADDRS[2:]), headers=h))
     return ops
 
 
@@ -441,6 +449,34 @@ def directed(rng, mismatches):
             sps.append(encode(path, rng.choice(dot_masks(path)), rng))
         cases += mk(rng, files, history(rng, sps, extra_addrs=2, methods=False), "directed", both=False, cache=True, fcache=True)
     return cases
+
+
+def extra_coverage(cases, impl, model, spec):
+    nreq = served = refused = spellings = 0
+    seen = set()
+    for c in cases:
+        i = impl.get(c.id)
+        if i is None:
+            continue
+        try:
+            _, ops = _scenario(c)
+            rs = xparse(i)[1]
+        except Exception:
+            continue
+        for o, rp in zip(ops, rs):
+            if o[1][0][1] != 0 or rp[0] != "L" or len(rp[1]) != 6:
+                continue
+            nreq += 1
+            t = o[1][3][1]
+            if b"%" in t and t not in seen:
+                seen.add(t)
+                spellings += 1
+            if _markers(rp):
+                served += 1
+            elif rp[1][0][1] == 404:
+                refused += 1
+    return {"requests": nreq, "distinct_percent_encoded_targets": spellings, "replies_with_guarded_content_to_listed_address": served,
+            "replies_404": refused}
 
 
 def describe(c):
